@@ -374,7 +374,9 @@ def h_size(wp, n, args, callee):
 
 
 def h_make_dims(wp, n, args, callee):
-    """make_dims(sizes...) is the array of its arguments (ASSUMED: aggregate initialisation of std::array)"""
+    """make_dims(sizes...) is the array of its arguments   (proved: make_dims<N> for N = 1..5, specs/C16/spec.py)"""
+    if not (1 <= len(args) <= 5):
+        raise Unsupported(f'make_dims with {len(args)} sizes: outside the proved instantiations')
     return wp.env[wp.new_array([v.t for v in wp.ints(args)], 'make_dims')]
 
 
@@ -544,8 +546,13 @@ def c_view(wp, tid, ptr, idx, n, kind):
     rel = {'off': off.t, 'len': P[m]}
     for _, c in ens_view(P, idx, rel, kind):
         wp.assume(c)
+    if m == 1:
+        view['row'] = idx[0]          # a first-axis row view remembers WHICH row it is (by the proved clause: data() + row * P_1)
     if kind == 'tensor':
-        return wp.new_tensor(wp.elems(arr)[m:], T['buf'], view['off'])
+        t = wp.new_tensor(wp.elems(arr)[m:], T['buf'], view['off'])
+        if m == 1:
+            wp.tens[t.t]['row'] = idx[0]
+        return t
     if kind == 'matrix':
         view['rows'], view['cols'] = wp.dim(tid, R - 2), wp.dim(tid, R - 1)
     return V(wp.tmp(kind), 'View', view)
@@ -835,6 +842,25 @@ def h_view_addassign(wp, n, args, callee):
     return dst
 
 
+def h_tensor_map_assign(wp, n, args, callee):
+    """tensor_map_t = tensor_map_t (copy or move assignment of a MAPPING tensor: tensor_t::operator= -> tensor_marray_storage_t::
+    operator= -> copy(): `map_vector(data(), size()) = map_vector(other.data(), other.size())`), call-site contract = the clause
+    proved for storage_t_map_assign_map / storage_t_map_move_assign / storage_ms_copy_m (CBMC, specs/C16/storage.h): the sizes
+    are equal (the assert in copy(): an obligation here), the source range is the destination range itself or does not overlap it
+    (Eigen's aliasing rule for Map = Map: an obligation here), coefficient k of the source is copied to coefficient k of the
+    destination, the mapping keeps its own pointer and dims"""
+    dst, src = wp.tensor_of(args[0]), wp.tensor_of(args[1])
+    D, S = wp.tens[dst], wp.tens[src]
+    ld, ls = wp.P(dst)[0], wp.P(src)[0]
+    wp.oblige('callee tensor_map_t = tensor_map_t precondition (assert in tensor_marray_storage_t::copy): equal sizes', f'(= {ld} {ls})', n)
+    if D['buf'] == S['buf']:
+        wp.oblige('callee tensor_map_t = tensor_map_t precondition (Eigen Map = Map): the source range is the destination range or disjoint from it',
+                  f'(or (= {D["off"]} {S["off"]}) (<= (+ {D["off"]} {ld}) {S["off"]}) (<= (+ {S["off"]} {ls}) {D["off"]}))', n)
+    wp.record_copy(D['buf'], D['off'], S['buf'], S['off'], ld)
+    wp.events.append(('copy', D['buf'], S['buf']))
+    return wp.env[dst]
+
+
 def h_integral_get(wp, n, args, callee):
     """integral_t<R>::get(itensor, otensor), call-site contract: same dims, no empty axis (integral() checks size() > 0
     and asserts the dims equal); fills otensor with the summed-area table of itensor (values: CBMC side for rank 1)"""
@@ -896,6 +922,7 @@ CALLS = [
     (r'^operator\[\]\|.*std::array', h_array_subscript),
     (r'^map_vector\|', h_map_vector), (r'^map_matrix\|', h_map_matrix), (r'^map_tensor\|', h_map_tensor),
     (r'^operator\+=\|.*Eigen::', h_view_addassign),
+    (r'^operator=\|.*tensor_t<nano::tensor_marray_storage_t', h_tensor_map_assign),
     (r'^operator=\|std::array', h_array_assign), (r'^operator=\|.*Eigen::', h_view_assign),
     (r'^operator\(\)\|', h_call_operator),
 ]
